@@ -1,6 +1,6 @@
 (* The comparison functions that the correspondence engine evaluates on harness output
    (extracted to OCaml for volume; the same definitions run under vm_compute for the cross-check). *)
-From AidlV Require Export Run.Sx Model.Validation.
+From AidlV Require Export Run.Sx Model.Validation Spec.Methods.
 
 (* verdicts: 0 = holds, 1 = fails, 2 = the harness output could not be decoded, 3 = unknown check *)
 Definition run_bool {X} (d : sx -> option X) (f : X -> bool) (s : sx) : N :=
@@ -21,8 +21,64 @@ Definition corr_validate (c : list file_result * list file_result) : bool :=
   | Panic => false
   end.
 
+(* ------------------------------------------------------------------ shared helpers *)
+Fixpoint remove_first {X} (eqb : X -> X -> bool) (x : X) (l : list X) : option (list X) :=
+  match l with
+  | [] => None
+  | y :: l' => if eqb x y then Some l'
+               else match remove_first eqb x l' with Some r => Some (y :: r) | None => None end
+  end.
+(* equality as multisets *)
+Fixpoint multiset_eqb {X} (eqb : X -> X -> bool) (l1 l2 : list X) : bool :=
+  match l1 with
+  | [] => is_empty l2
+  | x :: l1' => match remove_first eqb x l2 with Some r => multiset_eqb eqb l1' r | None => false end
+  end.
+
+Definition ctx_is (c : string) (d : diag) : bool := ostr_eqb (d_ctx d) (Some (lit c)).
+Definition ctx_none (d : diag) : bool := match d_ctx d with None => true | Some _ => false end.
+Definition in_ranges (r : range) (l : list range) : bool := existsb (range_eqb r) l.
+
+(* for every file that has a tree after validation: f parsed-tree validated-tree parse-stage-diags validated-diags *)
+Definition for_files (f : aidl -> aidl -> list diag -> list diag -> bool)
+           (c : list file_result * list file_result) : bool :=
+  let '(p, v) := c in
+  Nat.eqb (length p) (length v) &&
+  forallb (fun '(fp, fv) =>
+             str_eqb (fr_id fp) (fr_id fv) &&
+             match fr_ast fp, fr_ast fv with
+             | Some a, Some a' => f a a' (fr_diags fp) (fr_diags fv)
+             | None, None => true
+             | _, _ => false
+             end) (combine p v).
+
+(* model output for one file, given all parse-stage results *)
+Definition model_file (p : list file_result) (a : aidl) (ds0 : list diag) : option (aidl * list diag) :=
+  match validate_file (collect_item_keys p) a ds0 with Ok r => Some r | Panic => None end.
+
+(* ------------------------------------------------------------------ C09 *)
+(* the diagnostics that C09 is about, recognised by their context label and site *)
+Definition is_c09 (a : aidl) (d : diag) : bool :=
+  let code_ranges := map m_code_range (methods_of (ai_item a)) in
+  ctx_is "duplicated method name" d
+  || (ctx_none d && negb (is_empty (d_related d)) && in_ranges (d_range d) code_ranges)
+  || (ctx_is "duplicated import" d && in_ranges (d_range d) code_ranges).
+
+Definition spec_C09 : list file_result * list file_result -> bool :=
+  for_files (fun a a' ds0 ds =>
+    multiset_eqb diag_eqb (filter (is_c09 a') ds) (spec_c09_from [] (methods_of (ai_item a')))).
+
+Definition corr_C09 (c : list file_result * list file_result) : bool :=
+  for_files (fun a a' ds0 ds =>
+    match model_file (fst c) a ds0 with
+    | Some (am, dm) => list_eqb diag_eqb (filter (is_c09 a') dm) (filter (is_c09 a') ds)
+    | None => false
+    end) c.
+
 Definition checks : list (string * (sx -> N)) :=
-  [ ("corr_validate"%string, run_bool d_vcase corr_validate) ].
+  [ ("corr_validate"%string, run_bool d_vcase corr_validate);
+    ("corr_C09"%string, run_bool d_vcase corr_C09);
+    ("spec_C09"%string, run_bool d_vcase spec_C09) ].
 
 Definition dispatch (name : str) (s : sx) : N :=
   match find (fun c => str_eqb (lit (fst c)) name) checks with
